@@ -5,7 +5,8 @@
 EXTENDS LifecycleModel, TLC, Json
 
 CONSTANTS Q,          \* processors in registration order (sequence of ids)
-          Kinds, SCtxs, FCtxs, MaxSteps, MaxItems
+          Kinds, SCtxs, FCtxs, MaxSteps, MaxItems,
+          Faults      \* fault modes the environment may switch to ({} = never a fault), see LifecycleModel
 
 VARIABLES st, steps, act
 vars == <<st, steps, act>>
@@ -14,6 +15,7 @@ OpSet(s) ==
   {[op |-> "Shutdown", ctx |-> c] : c \in SCtxs}
   \cup {[op |-> "ForceFlush", ctx |-> c] : c \in FCtxs}
   \cup {[op |-> "Logger"]}
+  \cup {[op |-> "Fault", f |-> f] : f \in (Faults \cup (IF Faults = {} THEN {} ELSE {"none"})) \ {s.fault}}
   \cup (IF s.n < MaxItems THEN {[op |-> "Emit", via |-> v] : v \in {"old", "new"}} ELSE {})
 
 Init == st = LPEmpty(SeqToSet(Q)) /\ steps = 0 /\ act = [op |-> "Init"]
@@ -24,7 +26,7 @@ Spec == Init /\ [][Next]_vars
 View == <<st, steps>>
 EmitEdge == PrintT("EDGE " \o ToJson([from |-> st, act |-> act', to |-> st']))
 
-Inv == LPOk(st)
+Inv == LPOk(st) /\ ExporterShutWith(Kinds, st)
 NothingExportedAfterShutdown ==
   [][(st.down /\ \A p \in SeqToSet(Q) : st.sd[p] = 1) =>
         (st'.exp = st.exp /\ st'.sd = st.sd /\ st'.xsd = st.xsd)]_vars
